@@ -54,6 +54,15 @@ def _idem(V, group):
         return
     reparse(V, T, o, r[1], td.show(d).split('{')[0].split('[')[0],
             lambda: '%s options=%r input=%r -> %r (%s)' % (td.show(d), o, x, r[1], type(r[1]).__name__))
+    if d[0] == 'dc':
+        # a data-class instance fed back through the class itself (its own keys are its input)
+        y = r[1]
+        for label, again in (('__from__', lambda: T.__from__(y)), ('positional', lambda: T(y)), ('keywords', lambda: T(**y))):
+            try:
+                z = again()
+            except Exception as e:  # noqa
+                V.fail('idempotent:reparse-rejected:dataclass-' + label, '%s: %s(%r) raised %s: %s' % (td.show(d), label, y, type(e).__name__, str(e)[:120]))
+            V.check(z == y and type(z) is type(y), 'idempotent:reparse-changed:dataclass-' + label, lambda: '%s: %r -> %r' % (td.show(d), y, z))
     V.cover('accept')
 
 
@@ -283,3 +292,92 @@ def staged_union_lax(V):
         V.cover('accept')
     else:
         V.cover('reject')
+
+
+RAW_UNIONS = {'float|Decimal': (float, Decimal), 'int|float': (int, float), 'int|str': (int, str), 'str|bytes': (str, bytes),
+              'Decimal|float': (Decimal, float), 'bool|int': (bool, int), 'list|tuple': (list, tuple)}
+RAW_IN = ['0.1', '19.99', '2.5', '3', 'abc', '', b'7', 0.1, 2.5, 3, True, Decimal('0.1'), Decimal('3'), None, [1, '2'], (1, 2), 'true']
+
+
+@ob('staged-union-raw', marks=['accept', 'reject'], budget=(60, 200),
+    bounds='Union of two plain types (%s) in the listed order; x picked from %d values (numeric strings whose float and Decimal readings '
+           'differ, bytes, floats, Decimals, bools, sequences); flags solver-picked: a result re-parsed with the same union and options is '
+           'unchanged (equal value, same type)' % (', '.join(RAW_UNIONS), len(RAW_IN)))
+def staged_union_raw(V):
+    from utype.parser.rule import LogicalType
+    name = V.pick('U', sorted(RAW_UNIONS))
+    T = LogicalType.any_of(*RAW_UNIONS[name])
+    o = sym_flags(V)
+    x = V.pick('x', RAW_IN)
+    r = parse(T, x, o)
+    if r[0] != 'ok':
+        V.cover('reject')
+        return
+    z = parse(T, r[1], o)
+    V.check(z[0] == 'ok' and type(z[1]) is type(r[1]) and (z[1] == r[1] or (z[1] != z[1] and r[1] != r[1])), 'idempotent:reparse-changed:staged-union-raw',
+            lambda: 'Union[%s] options=%r input=%r -> %r (%s) ; re-parse -> %r' % (name, o, x, r[1], type(r[1]).__name__, z))
+    V.cover('accept')
+
+
+class _Article(td.Schema):
+    __options__ = td.Options(addition=False)
+    title: str
+    views: int = td.Field(no_input=True, default=0)
+
+    @property
+    def slug(self) -> str:
+        return self.title.lower()
+
+
+class _Strict(td.Schema):
+    __options__ = td.Options(no_data_loss=True)
+    title: str
+    n: int = td.Field(alias_from=['count'], default=0)
+
+    @property
+    def size(self) -> int:
+        return len(self.title)
+
+
+class _Aliased(td.Schema):
+    __options__ = td.Options(addition=False, case_insensitive=True)
+    title: str = td.Field(alias='headline')
+    ro: int = td.Field(mode='r', default=3)
+    n: int = td.Field(alias_from=['count'], default=0)
+
+
+class _Open(td.Schema):
+    __options__ = td.Options(addition=True)
+    title: str
+    views: int = td.Field(no_input=True, default=0)
+
+
+SELF_CLASSES = {'Article': _Article, 'Strict': _Strict, 'Aliased': _Aliased, 'Open': _Open, 'TNoIn': td.TNoIn, 'TInner': td.TInner}
+SELF_KEYS = ['title', 'headline', 'TITLE', 'views', 'n', 'count', 'ro', 'x', 'y', 'extra', 'slug', 'size', 'stamp']
+SELF_VALUES = ['Hello', b'ab', 3, '4', 'x', None, 1.5]
+
+
+@ob('idempotent/dataclass-self', marks=['accept', 'reject'], budget=(60, 300), per_path=(10, 20), exhaustive=False,
+    bounds='data classes %s (no-input fields with defaults, computed properties, read-mode fields, aliases, addition False/True, '
+           'no_data_loss); input: up to 3 solver-picked keys from %r with values from %r; an accepted instance fed back through '
+           'T.__from__(inst), T(inst) and T(**inst) is accepted again and equal' % (sorted(SELF_CLASSES), SELF_KEYS, SELF_VALUES),
+    out='tree not expected to close within the quick budget')
+def dataclass_self(V):
+    name = V.pick('T', sorted(SELF_CLASSES))
+    T = SELF_CLASSES[name]
+    items = {}
+    for i in range(V.int('n', 0, 3)):
+        items[V.pick('k%d' % i, SELF_KEYS)] = V.pick('v%d' % i, SELF_VALUES)
+    try:
+        y = T(**items)
+    except Exception:  # noqa
+        V.cover('reject')
+        return
+    for label, again in (('__from__', lambda: T.__from__(y)), ('positional', lambda: T(y)), ('keywords', lambda: T(**y))):
+        try:
+            z = again()
+        except Exception as e:  # noqa
+            V.fail('idempotent:reparse-rejected:dataclass-' + label, '%s(**%r) = %r; %s re-parse raised %s: %s' % (name, items, y, label, type(e).__name__, str(e)[:120]))
+        V.check(z == y and type(z) is type(y) and dict(z) == dict(y), 'idempotent:reparse-changed:dataclass-' + label,
+                lambda: '%s(**%r) = %r; %s re-parse -> %r' % (name, items, y, label, z))
+    V.cover('accept')
